@@ -82,6 +82,11 @@ class ScriptedPlayer:
         # one to act; vanish = (board_idx, phase, index, 'any'): close it when the session reaches
         # that point, whoever is to act (phase may also be 'deal': before "ready for deal")
         self.vanish_any = None
+        # vanish = (0, 'connect', k): send only the first k bytes of the connecting line, then close
+        self.drop_connect = None
+        if vanish is not None and len(vanish) == 3 and vanish[1] == 'connect':
+            self.drop_connect = int(vanish[2])
+            vanish = None
         if vanish is not None and len(vanish) == 4:
             self.vanish_any = tuple(vanish[:3])
             vanish = None
@@ -202,8 +207,18 @@ class ScriptedPlayer:
         if self.post_connect is not None:
             self.post_connect()
         # the whole request may be case-mangled except the quoted team name
-        self.send(self._case('Connecting ') + f'"{self.team}"' +
-                  self._case(f' as {self._name()} using protocol version ') + f'{self.version}')
+        request = self._case('Connecting ') + f'"{self.team}"' + \
+            self._case(f' as {self._name()} using protocol version ') + f'{self.version}'
+        if self.drop_connect is not None:
+            full = (request + '\r\n').encode('utf-8')
+            # a huge k stands for "everything up to and including the CR, the LF never comes"
+            data = full[:-1] if self.drop_connect >= 100000 else full[:self.drop_connect]
+            if data:
+                self.sock.sendall(data)
+            self.sock.close()
+            self.offended = True
+            raise _Stop()
+        self.send(request)
         line = self.recv()
         if line is None:
             self.verdict = 'closed'
